@@ -703,6 +703,28 @@ for _c in ['Cart', 'Geo', 'TM']:
     _simple('Coord%s.__eq__' % _c, 'op2:eq', (lambda cc: lambda rng, ctx: (lambda a: [a, a if rng.random() < 0.5 else r_coord(rng, cc)])(r_coord(rng, cc)))(_c), mutable=True)
 
 
+# -- additional forms: constructors, reflected operators, psfandgridconv -----------------------------
+_simple('convert.psfandgridconv', 'f:convert.psfandgridconv',
+        lambda rng, ctx: [rng.uniform(-1.2, 1.2), rng.uniform(-0.05, 0.05), r_lat(rng), r_lon(rng), float(rng.randrange(-177, 178, 6)),
+                          rng.uniform(-1.2, 1.2)] + ([r_ell(rng), r_proj(rng)] if rng.random() < 0.5 else []), mutable=True)
+_simple('angles.HPAngle()', 'cls:angles.HPAngle', lambda rng, ctx: [r_hp(rng, 359) if rng.random() < 0.85 else rng.choice([10.6, 10.007, -3.3060])])
+_simple('angles.DECAngle()', 'cls:angles.DECAngle', lambda rng, ctx: [r_float(rng, -720, 720)])
+_simple('angles.GONAngle()', 'cls:angles.GONAngle', lambda rng, ctx: [r_float(rng, -800, 800)])
+_simple('angles.DMSAngle()', 'cls:angles.DMSAngle',
+        lambda rng, ctx: (lambda d, m, s: rng.choice([[d, m, s], [-d, m, s], [0, -m, s], [0, 0, -s], ['%d %d %s' % (d, m, s)], ['-%d %d %s' % (d, m, s)],
+                                                      [d, m, s, False], [d, m, s, True]]))(*r_dms_parts(rng, 359)))
+_simple('angles.DDMAngle()', 'cls:angles.DDMAngle',
+        lambda rng, ctx: (lambda d, m, s: rng.choice([[d, m + s / 60], [-d, m + s / 60], [0, -(m + s / 60)], ['%d %s' % (d, round(m + s / 60, 4))],
+                                                      [d, m + s / 60, False]]))(*r_dms_parts(rng, 359)))
+for _k in ANGLE_KINDS:
+    _simple('%sAngle.__rmul__' % _k, 'op2:mul', (lambda kk: lambda rng, ctx: [rng.choice([2, 3, 0.5, -1.5]), r_angle(rng, kk, 170)])(_k), mutable=True)
+    _simple('%sAngle.__radd__(sum)' % _k, 'sum:', (lambda kk: lambda rng, ctx: [[r_angle(rng, kk, 80) for _ in range(rng.randrange(1, 4))], 0])(_k), mutable=True)
+_simple('coord.CoordCart()', 'cls:coord.CoordCart', lambda rng, ctx: list(r_xyz(rng)) + ([round(rng.uniform(-50, 50), 3)] if rng.random() < 0.5 else []))
+_simple('coord.CoordGeo()', 'cls:coord.CoordGeo', lambda rng, ctx: r_coord(rng, 'Geo')['$coord'][1:], mutable=True)
+_simple('coord.CoordTM()', 'cls:coord.CoordTM', lambda rng, ctx: r_coord(rng, 'TM')['$coord'][1:] + ([r_proj(rng)] if rng.random() < 0.3 else []), mutable=True)
+_simple('constants.TransformationSD()', 'cls:constants.TransformationSD', lambda rng, ctx: [round(rng.uniform(0, 0.01), 6) for _ in range(rng.choice([7, 14]))])
+
+
 # weights: transformation-related and mutable-argument ops are the ones the
 # property's mechanisms live in; keep them well represented
 def kind_weights():
